@@ -778,10 +778,22 @@ func (w *World) commit(c *ContactState, rec *SessionRec, call *Call, o *Outcome)
 			w.spawnChildren(c, e)
 		}
 	}
+	for _, r := range s.Runs() {
+		if len(r.Path()) > 100 {
+			w.probe("reach_run_path_over_100_steps")
+			break
+		}
+	}
 	// the person behind the contact reacts
 	if s.Status() == flows.SessionStatusWaiting && !rec.Voice || gotMsg {
 		w.T.Begin("persona")
-		if s.Status() == flows.SessionStatusWaiting && w.T.Chance("replies", 3, 4) {
+		marathon := w.Sc.Marathon && c.Idx == 0
+		if s.Status() == flows.SessionStatusWaiting && marathon && w.T.Chance("keeps_answering", 30, 31) {
+			// the contact of the long conversation answers the menu, quickly, again and again
+			task := &Task{Kind: tMsg, Contact: c.Idx, Text: []string{"next", "more", "1", "again", "menu"}[w.T.Pick("marathon_word", 5)]}
+			c.LastSaid = task.Text
+			w.deliver(task, time.Duration(1+w.T.Pick("marathondelay_s", 120))*time.Second)
+		} else if s.Status() == flows.SessionStatusWaiting && w.T.Chance("replies", 3, 4) {
 			n := 1
 			if w.T.Chance("burst", 1, 8) {
 				n = 2
